@@ -328,6 +328,17 @@ func CheckC07(r *Run) int {
 		{"redefine-loop-variable-in-body", "for q := 0; q < 1; q++ {\n\tq := 2\n\tprint(q)\n}\n", false},
 		{"redefine-parameter-in-body", "func f(a int) int {\n\ta := 2\n\treturn a\n}\nprint(f(1))\n", false},
 		{"redefine-range-variable-in-body", "for k, e := range []int{1} {\n\te := 2\n\tprint(k, e)\n}\n", false},
+		{"global-named-like-later-range-value-variable", "v := \"o\"\nfor i, v := range []int{1, 2} {\n\tprint(i, v)\n}\nprint(v)\n", false},
+		{"global-named-like-later-range-index-variable", "i := 5\nfor i, v := range []int{1, 2} {\n\tprint(i, v)\n}\nprint(i)\n", false},
+		{"global-named-like-later-range-only-index", "k := 5\nfor k := range []int{1, 2} {\n\tprint(k)\n}\n", false},
+		{"parameter-named-like-range-value-variable", "func f(v string) string {\n\tfor i, v := range []int{1} {\n\t\tprint(i, v)\n\t}\n\treturn v\n}\nprint(f(\"a\"))\n", false},
+		{"local-named-like-range-value-variable", "func f() int {\n\te := 1\n\tfor k, e := range \"ab\" {\n\t\tprint(k, e)\n\t}\n\treturn e\n}\nprint(f())\n", false},
+		{"range-variables-equal", "for e, e := range []int{1} {\n\tprint(e)\n}\n", false},
+		{"range-value-variable-free-name", "v := \"o\"\nfor i, w := range []int{1, 2} {\n\tprint(i, w)\n}\nprint(v)\n", true},
+		{"function-in-top-level-if", "if true {\n\tfunc h() {\n\t\tprint(1)\n\t}\n\th()\n}\n", false},
+		{"function-in-top-level-for", "for i := 0; i < 1; i++ {\n\tfunc h() {\n\t\tprint(1)\n\t}\n\th()\n}\n", false},
+		{"function-in-top-level-switch-clause", "x := 1\nswitch x {\ncase 1:\n\tfunc h() {\n\t\tprint(1)\n\t}\n\th()\n}\n", false},
+		{"function-in-top-level-range", "for i, e := range []int{1} {\n\tfunc h() {\n\t\tprint(1)\n\t}\n\tprint(i, e)\n}\n", false},
 		{"for-header-var-after-loop", "for q := 0; q < 1; q++ {\n\tprint(q)\n}\nprint(q)\n", false},
 		{"same-var-in-sibling-loops", "for q := 0; q < 1; q++ {\n\tprint(q)\n}\nfor q := 0; q < 1; q++ {\n\tprint(q)\n}\n", true},
 		{"assign-undefined", "u = 1\n", false},
